@@ -5,15 +5,30 @@ props = {l['id']: l for l in map(json.loads, open('/verif/properties.jsonl'))}
 
 # property -> (technique, level text, level note, design ref)
 claimed = {
- 'C04': ("contract-based deductive verification: ghost-state protocol contract on DB.Transaction (panic edges, defers) over go/ssa, SMT-discharged",
-         "Proof of the block-runner protocol: on every normal and panic exit of the real DB.Transaction exactly one of Commit/Rollback (outer) or RollbackTo the same save point (nested) happens as the property demands; Begin/Commit/Rollback bodies and database/sql atomicity are assumed.",
-         "database/sql makes Commit/Rollback atomic and returns the connection; only fc may panic; dialect SavePoint/RollbackTo do what they say", "4/C04"),
- 'C06': ("contract-based deductive verification: frame (modifies) obligations on every MergeClause implementation, SMT-discharged, counterexamples replayed",
-         "Proof that no clause-merging implementation in /repo writes memory that existed before the call (in-place append into shared backing arrays included).",
-         "plugin clause types outside /repo respect the same interface contract", "4/C06"),
+ 'C04': ("contract-based deductive verification: ghost-state protocol contracts on DB.Transaction (panic edges, defers), Commit, Rollback, Session over go/ssa, SMT-discharged",
+         "Proof of the block-runner protocol: on every normal and panic exit of the real DB.Transaction exactly one of Commit/Rollback (outer) or RollbackTo the same save point (nested) happens as the property demands; Commit/Rollback delegate at most once to the driver transaction and record its error; Session keeps a transaction-bound pool transaction-bound. database/sql atomicity and connection return are assumed.",
+         "database/sql makes Commit/Rollback atomic and returns the connection; only fc may panic; dialect SavePoint/RollbackTo do what they say; Begin's body is not yet under contract", "4/C04"),
+ 'C05': ("contract-based deductive verification: site obligations at every driver call / implicit Begin/Commit/Rollback in callbacks (no pending error, operation's own pool and handle), error-monotonic AddError, Commit/Rollback error recording, SMT-discharged",
+         "Proof of the lemmas L2-L5 of DESIGN 4/C05 on the real callbacks: no driver call or implicit BEGIN happens with a pending error, the implicit transaction is finished at most once on the operation's own handle (commit only without error), driver errors reach DB.Error, derived handles keep the connection pool. Atomicity of SQL statements and the pipeline order (C17 lemma) are assumed.",
+         "pipeline registration order; association saves and hooks are not yet under contract; database atomicity", "4/C05"),
+ 'C06': ("contract-based deductive verification: frame (modifies) obligations on every MergeClause/Build implementation, Statement.clone, getInstance, Session and every chain method, SMT-discharged, counterexamples replayed",
+         "Proof that clause merging, SQL generation and every chain method of /repo write only memory allocated by the call (in-place append into shared backing arrays included) when started from a reusable handle, and that derived handles own fresh statement/clause containers.",
+         "plugin clause types and statement modifiers outside /repo respect the same interface contracts; BuildCondition's frame is trusted (finding F7); finisher epilogues (Execute reset, Count restore) not yet under contract", "4/C06"),
+ 'C09': ("contract-based deductive verification: functional contract of checkMissingWhereConditions from the property statement + dominance site obligations in the Update/Delete executors, SMT-discharged",
+         "Proof, for all clause maps, that the guard rejects exactly the statements without an effective condition (soft-delete filter not counted) and that every driver call of the update/delete executors happens after the guard ran and passed.",
+         "BuildCondition returns no expression for empty forms (trusted, reflection); WHERE entries hold clause.Where (proved for Where.MergeClause)", "4/C09"),
  'C15': ("contract-based deductive verification: functional contract of clause.Limit.MergeClause (merge rules of the property) over go/ssa, SMT-discharged",
          "Proof, for all inputs, that later positive Limit/Offset values override and negative values cancel, as the property states.",
          "SQL engine semantics of LIMIT/OFFSET; other read paths not yet under contract", "4/C15"),
+ 'C16': ("contract-based deductive verification: value-preservation contract of Statement.clone (chain state incl. Attrs/Assign survives Session/WithContext), SMT-discharged",
+         "Proof that every derivation (Session, WithContext, chain methods) carries the whole chain state - conditions, selects, attrs, assigns - to the derived statement, which is the part of the property that 'does not depend on a Session or WithContext call'. Save/upsert/FirstOrCreate decision structure not yet under contract.",
+         "database upsert semantics; Save/FirstOrCreate bodies", "4/C16"),
+ 'C18': ("contract-based deductive verification: site obligations at every driver call (callbacks, Begin, Connection, prepared-statement wrappers) that the context argument is the statement's/caller's context + derivation contracts (clone/getInstance/Session), SMT-discharged",
+         "Proof that every ExecContext/QueryContext/QueryRowContext/PrepareContext/StmtContext/BeginTx/Conn call in /repo passes the context of the handle the operation started from, and that every derivation keeps or deliberately replaces that context.",
+         "database/sql honours cancellation; internal sessions of preload/associations not yet swept", "4/C18"),
+ 'C19': ("contract-based deductive verification: site obligations that every driver call in callbacks is dominated by !DryRun and every implicit Begin/Commit/Rollback by !SkipDefaultTransaction on the same Config; Session propagates both flags, SMT-discharged",
+         "Proof that no callback executor reaches the driver in DryRun mode and that the session flags ToSQL sets are the ones the executors test.",
+         "same-text part (no DryRun-dependent write to SQL/Vars) not yet mechanised", "4/C19"),
 }
 na_reason = {
  'C07': "quantifies over goroutine schedules and data races; sequential contracts cannot decide it (DESIGN.md section 5)",
